@@ -431,18 +431,29 @@ func (c *Collection) Delete(key string) (err error) {
 
 // remove creates a document tombstone. It removes the document's value and user xattrs. checkClosed will allow removing the document even the bucket instance is "closed".
 func (c *Collection) remove(key string, ifCas *CAS) (casOut CAS, err error) {
+	return c.removeIf(key, ifCas, 0)
+}
+
+var errNotExpired = errors.New("document is not (or no longer) due to expire")
+
+// removeIf is remove, with one more condition for the expiry sweep: if ifExpiredBy is nonzero the
+// document is only removed if, at the time of the transaction, it still has an expiry at or before it.
+func (c *Collection) removeIf(key string, ifCas *CAS, ifExpiredBy Exp) (casOut CAS, err error) {
 	err = c.withNewCas(func(txn *sql.Tx, newCas CAS) (e *event, err error) {
 		// Get the doc, possibly checking cas:
 		var cas CAS
 		var rawXattrs []byte
 		var revSeqNo uint64
+		var exp Exp
 		row := txn.QueryRow(
-			`SELECT cas, xattrs, revSeqNo FROM documents WHERE collection=?1 AND key=?2`,
+			`SELECT cas, xattrs, revSeqNo, exp FROM documents WHERE collection=?1 AND key=?2`,
 			c.id, key)
-		if err = scan(row, &cas, &rawXattrs, &revSeqNo); err != nil {
+		if err = scan(row, &cas, &rawXattrs, &revSeqNo, &exp); err != nil {
 			return nil, remapKeyError(err, key)
 		} else if ifCas != nil && cas != *ifCas {
 			return nil, sgbucket.CasMismatchErr{Expected: *ifCas, Actual: cas}
+		} else if ifExpiredBy != 0 && (exp == 0 || exp > ifExpiredBy) {
+			return nil, errNotExpired // rewritten or touched since the sweep listed it
 		}
 		revSeqNo++
 
@@ -596,7 +607,7 @@ func (c *Collection) expireDocuments() (count int64, err error) {
 	// will get its own db connection, and if the db only supports one connection (i.e. in-memory)
 	// having both queries active would deadlock.)
 	for _, key := range keys {
-		if c.Delete(key) == nil {
+		if _, err := c.removeIf(key, nil, exp); err == nil {
 			count++
 		}
 	}
